@@ -1258,6 +1258,24 @@ TraceProxy ==
     /\ UNCHANGED << pst, D, nodes, dlv, sto, psto, rrv, meta, cev, ctx, base, last, pools, lostSet, evals, fames, ref, sub >>
 
 \* lines that carry no specification step (the driver could not run the step)
+\* the node's read-only API: validator set by round (future rounds included) and
+\* blocks by index
+TraceApiRead ==
+    /\ Line.a = "ApiRead"
+    /\ LET o == Line.o
+           n == Line.n
+           tb == PSTable(o.ps)
+           V == Checks("C10", "Inv_C10_ValidatorSetOfRound",
+                       \A k \in 1..Len(o.sets) : AsSeq(o.sets[k].peers) = EffectiveAt(tb, o.sets[k].r))
+                \cup Checks("C02", "Inv_C02_ApiKeepsDelivered",
+                       n \notin DOMAIN dlv \/
+                       \A k \in 1..Len(o.blocks) :
+                           LET b == BlockAt(dlv[n], o.blocks[k].idx) IN
+                           b = << >> \/ StoredDigOf(b[1]) = o.blocks[k].dig)
+       IN  viol' = AddCapped(viol, V)
+    /\ stats' = Bump(stats, "lines")
+    /\ UNCHANGED << pst, D, nodes, dlv, sto, psto, rrv, meta, cev, ctx, base, last, pools, lostSet, evals, fames, ref, sub, drift >>
+
 TraceNoop ==
     /\ Line.a \in { "SyncFail", "Note", "StateChange" }
     /\ stats' = Bump(stats, "lines")
@@ -1266,7 +1284,7 @@ TraceNoop ==
 TraceStep ==
     /\ l <= NLines
     /\ l' = l + 1
-    /\ \/ TraceReset \/ TraceCreate \/ TraceSubmit \/ TraceSync \/ TraceNoop
+    /\ \/ TraceReset \/ TraceCreate \/ TraceSubmit \/ TraceSync \/ TraceNoop \/ TraceApiRead
        \/ TraceQuorum \/ TraceQuorumAccept \/ TraceMedian \/ TraceHgInsert \/ TraceInstance
        \/ TraceNodeUp \/ TraceAddItx \/ TraceOpDone \/ TraceOffer \/ TraceLiveCheck \/ TraceFFOffer
        \/ TraceRpc \/ TraceStateRpc \/ TraceHeartbeat \/ TraceBytes
